@@ -15,6 +15,10 @@ MON = ["C12", "C04", "C05", "C02"]
 
 def cells(tier):
     out = []
+    for size in [2, "inf"]:
+        sc = scen(pool(size, "SimpleTaskPool", fault=[0, 1], ecb="plain", ccb="plain"), [[S("S", 2), S("T", 2)], [cgroup("S")]], outcomes=["ret"])
+        # (C04's per-request count cannot attribute failing call sites to one of several start() requests: not used here)
+        out.append(cell(f"simple s{size} S2 (every call site raises),T2|cgroupS", sc, ["C12", "C02", "C10", "C07"], own_only=True))
     for dn, da in {"gac": [[GAC]], "flush,gac": [[FLUSH], [GAC]], "gacRE": [[GAC_RE]]}.items():
         sc = scen(pool(2), [[A("A", 2, worker="retexc")], [A("B", 1)]] + da, outcomes=["ret", "exc"], ecb="plain", ccb="plain")
         out.append(cell(f"s2 A2 returns-an-exception-instance|B1 {dn}", sc, MON))
